@@ -22,6 +22,7 @@ type seed struct {
 }
 
 var seeds = []seed{
+	{"64-bit size predictor counts 8 bytes per key", "L1", "roaring64/roaringarray64.go", "\t\tanswer += 4\n\t\tanswer += c.GetSerializedSizeInBytes()", "\t\tanswer += 8\n\t\tanswer += c.GetSerializedSizeInBytes()", "serializedSizeInBytes"},
 	{"SetBigMany stops sign extension below the new top plane", "PC2", "roaring64/bsi64.go", "\t\t\t// Sign-extend existing negative entries into the new bit slots.\n\t\t\tnewSignPos := len(b.bA) - 1\n\t\t\tfor i := oldSignPos + 1; i <= newSignPos; i++ {", "\t\t\t// Sign-extend existing negative entries into the new bit slots.\n\t\t\tnewSignPos := len(b.bA) - 1\n\t\t\tfor i := oldSignPos + 1; i < newSignPos; i++ {", "SetBigMany"},
 	{"32-bit SetMany leaves the top plane untouched", "PC1", "BitSliceIndexing/bsi.go", "\tfor i := 0; i < b.BitCount(); i++ {\n\t\tif uint64(value)&(1<<uint64(i)) > 0 {\n\t\t\tb.bA[i].Or(foundSet)", "\tfor i := 0; i < b.BitCount()-1; i++ {\n\t\tif uint64(value)&(1<<uint64(i)) > 0 {\n\t\t\tb.bA[i].Or(foundSet)", "SetMany"},
 	{"table equality skips slots both sides flag as shared", "F11", "roaringarray.go", "\t\tfor i, c := range ra.containers {\n\t\t\tif !c.equals(srb.containers[i]) {\n", "\t\tfor i, c := range ra.containers {\n\t\t\tif ra.needCopyOnWrite[i] && srb.needCopyOnWrite[i] {\n\t\t\t\tcontinue\n\t\t\t}\n\t\t\tif !c.equals(srb.containers[i]) {\n", "(*roaring.Bitmap).Equals"},
